@@ -888,6 +888,74 @@ Proof.
     exists pre, s, post, d, p. auto 10.
 Qed.
 
+(* ---- the same under every policy of ignoring verifying datagrams with an irregular Message-Authenticator *)
+Lemma first_delivered_g_spec rej secret st : forall dgs d,
+  first_delivered_g md5raw fl rej secret st dgs = Some d ->
+  In d dgs /\ exists p req, parse d = Some p /\ nth (N.to_nat (p_id p)) st None = Some req /\
+                            reply_ok md5raw fl secret req d = true.
+Proof.
+  induction dgs as [|d0 r IH]; intros d H; simpl in H; [discriminate|].
+  unfold cstep_g in H.
+  destruct (rej d0 && ma_irregular (truncate d0))%bool.
+  { apply IH in H as [Hi He]. split; [right; exact Hi|exact He]. }
+  unfold cstep in H.
+  destruct (parse d0) as [p|] eqn:Hp.
+  2:{ apply IH in H as [Hi He]. split; [right; exact Hi|exact He]. }
+  destruct (nth (N.to_nat (p_id p)) st None) as [req|] eqn:Hn.
+  2:{ apply IH in H as [Hi He]. split; [right; exact Hi|exact He]. }
+  destruct (reply_ok md5raw fl secret req d0) eqn:Hok.
+  - inversion H; subst. split; [left; reflexivity|]. exists p, req. auto.
+  - apply IH in H as [Hi He]. split; [right; exact Hi|exact He].
+Qed.
+
+Lemma try_server_g_decided rej (s : server_try) (d : bytes) : try_server_g md5raw fl rej s = Some d -> verified_on s d.
+Proof.
+  destruct s as [[secret req] dgs]. unfold try_server_g, verified_on.
+  set (st := fst (cstep md5raw fl secret pending0 (CSend (nth 1 req 0) req))).
+  assert (Hst : st = upd (N.to_nat (nth 1 req 0)) (Some req) pending0) by reflexivity.
+  intros Hf. apply first_delivered_g_spec in Hf as (Hin & p & req' & Hp & Hn & Hok).
+  rewrite Hst, nth_upd in Hn.
+  destruct (Nat.eqb_spec (N.to_nat (p_id p)) (N.to_nat (nth 1 req 0))) as [Hc|Hc]; simpl andb in Hn.
+  2:{ rewrite pending0_nth in Hn; discriminate. }
+  match type of Hn with (if ?b then _ else _) = _ => destruct b end; [|rewrite pending0_nth in Hn; discriminate].
+  inversion Hn; subst req'.
+  unfold reply_ok in Hok. rewrite Hfl in Hok. apply andb_true_iff in Hok as [Hra Hma].
+  split; [exact Hin|]. exists p. repeat split; auto. lia.
+Qed.
+
+Lemma failover_g_decided rej (servers : list server_try) (d : bytes) :
+  failover_g md5raw fl rej servers = Some d ->
+  exists pre s post, servers = pre ++ s :: post /\
+    Forall (fun s' => try_server_g md5raw fl rej s' = None) pre /\ verified_on s d.
+Proof.
+  induction servers as [|s r IH]; simpl; [discriminate|].
+  destruct (try_server_g md5raw fl rej s) as [d'|] eqn:Ht.
+  - intros Hd; inversion Hd; subst d'. exists [], s, r. repeat split; auto. apply (try_server_g_decided rej); exact Ht.
+  - intros Hd. destruct (IH Hd) as (pre & s' & post & -> & Hpre & Hv).
+    exists (s :: pre), s', post. repeat split; auto.
+Qed.
+
+Lemma authenticate_failover_g_authentic rej extract servers :
+  match authenticate_failover_g md5raw fl rej extract servers with
+  | AAllowed attrs =>
+    exists pre s post d p, servers = pre ++ s :: post /\ Forall (fun s' => try_server_g md5raw fl rej s' = None) pre /\
+      verified_on s d /\ parse d = Some p /\ p_code p = 2 /\ attrs = extract (p_attrs p)
+  | ADenied =>
+    exists pre s post d p, servers = pre ++ s :: post /\ Forall (fun s' => try_server_g md5raw fl rej s' = None) pre /\
+      verified_on s d /\ parse d = Some p /\ p_code p = 3
+  | AError => True
+  end.
+Proof.
+  unfold authenticate_failover_g.
+  destruct (failover_g md5raw fl rej servers) as [d|] eqn:Hf; [|exact I].
+  destruct (failover_g_decided rej servers d Hf) as (pre & s & post & Hs & Hpre & Hv).
+  unfold auth_outcome. destruct (parse d) as [p|] eqn:Hp; [|exact I].
+  destruct (N.eqb_spec (p_code p) 2) as [H2|H2].
+  - exists pre, s, post, d, p. auto 10.
+  - destruct (N.eqb_spec (p_code p) 3) as [H3|H3]; [|exact I].
+    exists pre, s, post, d, p. auto 10.
+Qed.
+
 End U.
 
 (* ------------------------------------------------------------------ /repo HEAD and the replay window *)
